@@ -22,7 +22,16 @@ type LoopSpec struct {
 	Invariants []Clause
 }
 
+type SiteAssert struct {
+	Label string
+	Site  string // source text (prefix) of the instruction the assertion is attached before
+	Text  string
+	Expr  ast.Expr
+	Hits  int
+}
+
 type Contract struct {
+	Sites    []*SiteAssert
 	Key      string // core.notAfter | iface:core.State.Add | funcval:core.(*Throttle).Submit.f | extern:time.ParseDuration
 	Pkg      string // package short path the contract was written in (core, sys, ...)
 	Requires []Clause
@@ -30,6 +39,7 @@ type Contract struct {
 	GhostEns []Clause // assumed at call sites, not checked against the body (ghost instrumentation)
 	Entry    []Clause // assumed at entry when verifying the body (ghost initialisation)
 	Modifies []string // raw item texts
+	AlsoMods []string // ghost variables havocked in addition to the inferred write set
 	HasMods  bool
 	Loops    map[int]*LoopSpec
 	Trusted  bool
@@ -77,7 +87,7 @@ type Specs struct {
 	trustedList []string
 }
 
-var clauseKeywords = []string{"requires", "ensures", "ghost-ensures", "assume-entry", "modifies", "loop", "trusted", "pure-effects", "inline-ok"}
+var clauseKeywords = []string{"assert", "requires", "ensures", "ghost-ensures", "assume-entry", "modifies", "loop", "trusted", "pure-effects", "inline-ok"}
 
 func loadSpecs(repo string) (*Specs, error) {
 	sp := &Specs{contracts: map[string]*Contract{}, defines: map[string]*Define{}, pures: map[string]*PureFunc{}, ghosts: map[string]*GhostVar{},
@@ -108,6 +118,7 @@ func (sp *Specs) parseFile(repo, fn string) error {
 	// the file must be comment-only apart from the build tag and package clause
 	var cur *Contract
 	var lastClause *Clause
+	var lastSite *SiteAssert
 	var lastKind string
 	lines := strings.Split(string(data), "\n")
 	flush := func() {}
@@ -134,7 +145,7 @@ func (sp *Specs) parseFile(repo, fn string) error {
 			key := ""
 			switch word {
 			case "func":
-				key = pkg + "." + name
+				key = canonFuncKey(pkg, name)
 			case "iface":
 				key = "iface:" + pkg + "." + name
 			case "funcval":
@@ -203,7 +214,9 @@ func (sp *Specs) parseFile(repo, fn string) error {
 		case "extern-pure":
 			for _, n := range strings.Split(rest, ",") {
 				if n = strings.TrimSpace(n); n != "" {
-					if !strings.Contains(n, ".") || strings.HasPrefix(n, "(") {
+					if strings.HasPrefix(n, "(") {
+						n = canonFuncKey(pkg, n)
+					} else if !strings.Contains(n, ".") {
 						n = pkg + "." + n
 					}
 					sp.externPure[n] = true
@@ -213,7 +226,7 @@ func (sp *Specs) parseFile(repo, fn string) error {
 		case "noinline":
 			for _, n := range strings.Split(rest, ",") {
 				if n = strings.TrimSpace(n); n != "" {
-					sp.noInline[pkg+"."+n] = true
+					sp.noInline[canonFuncKey(pkg, n)] = true
 				}
 			}
 			cur, lastClause = nil, nil
@@ -270,6 +283,34 @@ func (sp *Specs) parseFile(repo, fn string) error {
 					cur.Props[q] = true
 				}
 			}
+		case "assert":
+			// assert[label] at "source text": expr
+			if cur == nil {
+				return errf("assert outside a contract")
+			}
+			label, r2 := splitLabel(rest)
+			r2 = strings.TrimSpace(r2)
+			if !strings.HasPrefix(r2, "at ") {
+				return errf("expected: assert[label] at \"site\": expr")
+			}
+			r2 = strings.TrimSpace(r2[3:])
+			if !strings.HasPrefix(r2, "\"") {
+				return errf("site must be quoted")
+			}
+			end := strings.Index(r2[1:], "\":")
+			if end < 0 {
+				return errf("site must be followed by a colon")
+			}
+			sa := &SiteAssert{Label: label, Site: r2[1 : 1+end], Text: strings.TrimSpace(r2[end+3:])}
+			cur.Sites = append(cur.Sites, sa)
+			lastClause = nil
+			lastSite = sa
+			lastKind = "site"
+			if p := propOf(label); p != "" {
+				for _, q := range strings.Split(p, "+") {
+					cur.Props[q] = true
+				}
+			}
 		case "modifies":
 			if cur == nil {
 				return errf("modifies outside a contract")
@@ -281,6 +322,15 @@ func (sp *Specs) parseFile(repo, fn string) error {
 				}
 			}
 			lastClause = nil
+		case "also-modifies":
+			if cur == nil {
+				return errf("also-modifies outside a contract")
+			}
+			for _, it := range splitTop(rest, ',') {
+				if it = strings.TrimSpace(it); it != "" {
+					cur.AlsoMods = append(cur.AlsoMods, it)
+				}
+			}
 		case "trusted":
 			if cur == nil {
 				return errf("trusted outside a contract")
@@ -296,7 +346,9 @@ func (sp *Specs) parseFile(repo, fn string) error {
 			cur.InlineOK = true
 		case "|":
 			// continuation
-			if lastKind == "clause" && lastClause != nil {
+			if lastKind == "site" && lastSite != nil {
+				lastSite.Text += " " + rest
+			} else if lastKind == "clause" && lastClause != nil {
 				lastClause.Text += " " + rest
 			} else if strings.HasPrefix(lastKind, "define:") {
 				d := sp.defines[strings.TrimPrefix(lastKind, "define:")]
@@ -309,6 +361,17 @@ func (sp *Specs) parseFile(repo, fn string) error {
 		}
 	}
 	return nil
+}
+
+// canonFuncKey: "notAfter" -> "core.notAfter"; "(*IndexedState).add" -> "(*core.IndexedState).add"; "(AndQuery).Exec" -> "(core.AndQuery).Exec"
+func canonFuncKey(pkg, name string) string {
+	switch {
+	case strings.HasPrefix(name, "(*"):
+		return "(*" + pkg + "." + name[2:]
+	case strings.HasPrefix(name, "("):
+		return "(" + pkg + "." + name[1:]
+	}
+	return pkg + "." + name
 }
 
 func propOf(label string) string {
@@ -516,6 +579,13 @@ func (sp *Specs) resolveExprs() error {
 			if err := fix(ls.Invariants); err != nil {
 				return err
 			}
+		}
+		for _, sa := range c.Sites {
+			e, err := parseSpecExpr(sa.Text)
+			if err != nil {
+				return fmt.Errorf("%s: %v", c.Key, err)
+			}
+			sa.Expr = e
 		}
 	}
 	for _, k := range sortedKeys(sp.defines) {
